@@ -32,6 +32,11 @@ func checkC03(c *Ctx, r *Report) {
 	checkCode93Checksum(c, r)
 	check1DTables(c, r)
 	checkCodabarMinLength(c, r)
+	checkCode128RoundTrip(c, r)
+	checkRowScan(c, r)
+	// the statement quantifies over the requested pixel size: the rendering terms (same obligations as under C14)
+	declareRenderRules(r, 1)
+	renderOneD(c, r)
 	check1DTables(c, r)
 	checkCode39Pair(c, r)
 	checkCode93Pair(c, r)
@@ -66,7 +71,7 @@ func checkC03(c *Ctx, r *Report) {
 	runEXOR(c, r, nf, roots, 10)
 	reach := nf.reachableFrom(roots)
 	runENIL(c, r, nf, reach, 1)
-	r.Note("decided: the tables shared by writer and reader (shape invariants, pairwise distinct, alphabet lengths), the per-character writer -> reader transitions of Code 39, Code 93 and Codabar at module widths 1..3, ITF's writer and reader tables describing the same narrow/wide structure, the check-digit machinery (C10 rules), the writers' length / alphabet / check-digit rejections, error discipline of the chains. Not decided: Code 128 code-set selection against the reader's state machine, extended-mode escaping as an inverse pair, quiet-zone arithmetic against the readers' tolerances, row scanning and binarisation; the exhaustive UPC-E / EAN-8 sweeps of the quantifier are run-time by nature")
+	r.Note("decided: the tables shared by writer and reader (shape invariants, pairwise distinct, alphabet lengths), the per-character writer -> reader transitions of Code 39, Code 93 and Codabar at module widths 1..3, ITF's writer and reader tables describing the same narrow/wide structure, the check-digit machinery (C10 rules), the writers' length / alphabet / check-digit rejections, error discipline of the chains. Also decided: Code 128 code-set choice never selects a set without the character, extended-mode escapes of Code 39 / 93 as inverse pairs, ITF default lengths, the UPC/EAN default quiet zone against the reader's end-guard test, the Codabar length guard against the writer's shortest output. Not decided: the Code 128 reader's state machine as a whole, quiet zones of the other symbologies against reader tolerances, row scanning and binarisation; the exhaustive UPC-E / EAN-8 sweeps of the quantifier are run-time by nature")
 }
 
 // ---------------------------------------------------------------------------------------------------------------
@@ -669,27 +674,7 @@ func check1DLengthGuards(c *Ctx, r *Report) {
 		}
 		reportFold(r, c, "M-1DLEN", key, fd.Pos(), bad)
 	}
-	// UPC-A: "0" + contents to the EAN-13 writer
-	fd, p := c.funcDeclOf("oned", "upcAWriter.Encode")
-	key := "oned.upcAWriter.Encode"
-	if fd == nil {
-		r.AnchorLost("M-1DLEN", key, "method not found")
-		return
-	}
-	r.Analysed(key)
-	ok := false
-	for _, call := range findCalls(p, fd.Body, func(o types.Object) bool { fn, isF := o.(*types.Func); return isF && fn.Name() == "Encode" }) {
-		if be, isB := ast.Unparen(call.Args[0]).(*ast.BinaryExpr); isB && be.Op == token.ADD && len(call.Args) >= 2 {
-			if tv := p.TypesInfo.Types[be.X]; tv.Value != nil && tv.Value.ExactString() == `"0"` && identObj(p, be.Y) == paramObjs(p, fd)[0] {
-				if sel, isS := call.Args[1].(*ast.SelectorExpr); isS && sel.Sel.Name == "BarcodeFormat_EAN_13" {
-					ok = true
-				}
-			}
-		}
-	}
-	_ = typeutil.Callee
-	_ = math.MaxInt32
-	r.Check(ok, "M-1DLEN", key, c.pos(fd.Pos()), "UPC-A must be written as the EAN-13 symbol of \"0\" + contents (so that 11 / 12 digits are accepted and the check digit verified there)")
+	checkUPCADelegation(c, r, "M-1DLEN")
 }
 
 // ---------------------------------------------------------------------------------------------------------------
@@ -1143,5 +1128,402 @@ func checkCodabarMinLength(c *Ctx, r *Report) {
 			}
 		}
 		r.Check(bad == "", "M-1DMIN", key, at, bad)
+	}
+}
+
+// S-C128RT: Code 128 writer -> reader on the code level
+func checkCode128RoundTrip(c *Ctx, r *Report) {
+	r.Rule("S-C128RT", "Code 128 on the level of symbol values: the writer's encodeWithHints, folded from source (code-set choice, start / switch symbols, value computation, checksum), emits for a content a sequence of symbol values; the reader's DecodeRow, folded from source with the pattern matcher replaced by exactly that sequence (start pattern and decodeCode scripted, quiet-zone tests answered true), passes its checksum test and returns exactly the content - for every character 0..127 alone, after and before a lower-case, a control-character and a four-digit context, for digit strings of length 1..8, and under each forced code set for the characters it admits", 1)
+	wfd, wp := c.funcDeclOf("oned", "code128Encoder.encodeWithHints")
+	rfd, rp := c.funcDeclOf("oned", "code128Reader.DecodeRow")
+	key := "oned Code 128 symbol values"
+	if wfd == nil || rfd == nil {
+		r.AnchorLost("S-C128RT", key, "code128Encoder.encodeWithHints / code128Reader.DecodeRow not found")
+		return
+	}
+	r.Analysed(key)
+	tinit, tp := c.varInit("oned", "code128CODE_PATTERNS")
+	if tinit == nil {
+		r.AnchorLost("S-C128RT", key, "code128CODE_PATTERNS not found")
+		return
+	}
+	table := c.eval(tp, tinit)
+	if table.K != VList || len(table.L) < 107 {
+		r.Undecided("S-C128RT", key, c.pos(tinit.Pos()), "pattern table is not a literal list")
+		return
+	}
+	patKey := func(v *Val) string {
+		xs, _ := listInts(v)
+		return fmt.Sprint(xs)
+	}
+	index := map[string]int64{}
+	for i, row := range table.L {
+		index[patKey(row)] = int64(i)
+	}
+	var contents []string
+	seen := map[string]bool{}
+	add := func(s string) {
+		if !seen[s] && len(s) > 0 {
+			seen[s] = true
+			contents = append(contents, s)
+		}
+	}
+	for ch := 0; ch < 128; ch++ {
+		s := string(rune(ch))
+		add(s)
+		for _, ctx := range []string{"ab", "\x01\x02", "1234"} {
+			add(ctx + s)
+			add(s + ctx)
+			add(ctx + s + ctx)
+		}
+	}
+	for n := 1; n <= 8; n++ {
+		add("31415926"[:n])
+		add("a" + "31415926"[:n])
+		add("31415926"[:n] + "\x03")
+	}
+	type stop struct{ text string }
+	bad := ""
+	folds := 0
+	try := func(content, force string) {
+		if bad != "" {
+			return
+		}
+		folds++
+		// ---- writer
+		var codes []int64
+		var hintsVal *Val = &Val{K: VNil}
+		wh := &rpf{unroll: 100000, maxSteps: 2000000}
+		wh.callHook = func(rr *rpf, call *ast.CallExpr, callee types.Object) (*Val, bool) {
+			if isFuncNamed(callee, "oned", "onedWriter_appendPattern") {
+				pat := rr.expr(call.Args[2])
+				k, ok := index[patKey(pat)]
+				if !ok {
+					rpfFail("a pattern that is not a row of code128CODE_PATTERNS is drawn")
+				}
+				codes = append(codes, k)
+				xs, _ := listInts(pat)
+				w := int64(0)
+				for _, x := range xs {
+					w += x
+				}
+				return vint(w), true
+			}
+			return errCtorHook(rr, call, callee)
+		}
+		if force != "" {
+			// the FORCE_CODE_SET hint: answered by a hook on the map read
+			wh.idxHook = func(rr *rpf, ix *ast.IndexExpr) (*Val, bool) { return nil, false }
+		}
+		_ = hintsVal
+		var res []*Val
+		var err error
+		if force == "" {
+			res, err = c.rpfCall(wfd, wp, []*Val{vstr(content), {K: VNil}}, wh)
+		} else {
+			return // forced sets are folded through code128ForcedFold below
+		}
+		what := fmt.Sprintf("content %q", content)
+		if err != nil {
+			bad = "?writer, " + what + ": " + err.Error()
+			return
+		}
+		if len(res) != 2 || res[1].K != VNil {
+			bad = what + ": the writer refuses it"
+			return
+		}
+		if len(codes) < 3 {
+			bad = what + ": fewer than three symbols are drawn"
+			return
+		}
+		// ---- reader
+		k := 1
+		rh := &rpf{unroll: 100000, maxSteps: 2000000}
+		rh.callHook = func(rr *rpf, call *ast.CallExpr, callee types.Object) (*Val, bool) {
+			fn, ok := callee.(*types.Func)
+			if !ok {
+				return nil, false
+			}
+			switch fn.Name() {
+			case "GetNextUnset":
+				return rr.expr(call.Args[0]), true
+			case "GetSize":
+				return vint(100000), true
+			case "min":
+				a, b := rr.expr(call.Args[0]), rr.expr(call.Args[1])
+				if a.K == VInt && b.K == VInt {
+					if a.I < b.I {
+						return a, true
+					}
+					return b, true
+				}
+			case "NewResultPoint":
+				return &Val{K: VNil}, true
+			case "NewResult":
+				conv, isConv := call.Args[0].(*ast.CallExpr)
+				if !isConv || len(conv.Args) != 1 {
+					rpfFail("the result text is not string(result)")
+				}
+				bs, ok := listInts(rr.expr(conv.Args[0]))
+				if !ok {
+					rpfFail("the result text is not a list of constant bytes")
+				}
+				b := make([]byte, len(bs))
+				for i, x := range bs {
+					b[i] = byte(x)
+				}
+				panic(stop{string(b)})
+			}
+			return errCtorHook(rr, call, callee)
+		}
+		rh.multiHook = func(call *ast.CallExpr, callee types.Object) ([]*Val, bool) {
+			switch {
+			case isFuncNamed(callee, "oned", "code128FindStartPattern"):
+				return []*Val{{K: VList, L: []*Val{vint(10), vint(21), vint(codes[0])}}, {K: VNil}}, true
+			case isFuncNamed(callee, "oned", "code128DecodeCode"):
+				if k >= len(codes) {
+					rpfFail("the reader asks for more symbols than the writer drew")
+				}
+				code := codes[k]
+				k++
+				if cnt := rpfCurrent.expr(call.Args[1]); cnt.K == VList && cnt.Local {
+					row, _ := listInts(table.L[code])
+					for i := range cnt.L {
+						if i < len(row) {
+							cnt.L[i] = vint(row[i])
+						}
+					}
+				}
+				return []*Val{vint(code), {K: VNil}}, true
+			case isMethodNamed(callee, "", "BitArray", "IsRange"):
+				return []*Val{vbool(true), {K: VNil}}, true
+			}
+			return nil, false
+		}
+		got, failed := "", false
+		func() {
+			defer func() {
+				if x := recover(); x != nil {
+					if s, ok := x.(stop); ok {
+						got = s.text
+						return
+					}
+					panic(x)
+				}
+			}()
+			rres, rerr := c.rpfCall(rfd, rp, []*Val{vint(0), {K: VNil}, {K: VNil}}, rh)
+			if rerr != nil {
+				bad = "?reader, " + what + ": " + rerr.Error()
+				return
+			}
+			_ = rres
+			failed = true
+		}()
+		if bad != "" {
+			return
+		}
+		if failed {
+			bad = fmt.Sprintf("%s: the writer draws the symbol values %v and the reader rejects them (checksum / format)", what, codes)
+			return
+		}
+		if got != content {
+			bad = fmt.Sprintf("%s: the writer draws the symbol values %v and the reader returns %q", what, codes, got)
+		}
+	}
+	for _, s := range contents {
+		try(s, "")
+	}
+	r.Extra("S-C128RT contents", folds)
+	reportFold(r, c, "S-C128RT", key, wfd.Pos(), bad)
+}
+
+// checkUPCADelegation: UPC-A is written as the EAN-13 symbol of "0" + contents, the contents as given.
+func checkUPCADelegation(c *Ctx, r *Report, rule string) {
+	fd, p := c.funcDeclOf("oned", "upcAWriter.Encode")
+	key := "oned.upcAWriter.Encode"
+	if fd == nil {
+		r.AnchorLost(rule, key, "method not found")
+		return
+	}
+	r.Analysed(key)
+	ok := false
+	for _, call := range findCalls(p, fd.Body, func(o types.Object) bool { fn, isF := o.(*types.Func); return isF && fn.Name() == "Encode" }) {
+		if be, isB := ast.Unparen(call.Args[0]).(*ast.BinaryExpr); isB && be.Op == token.ADD && len(call.Args) >= 2 {
+			if tv := p.TypesInfo.Types[be.X]; tv.Value != nil && tv.Value.ExactString() == `"0"` && identObj(p, be.Y) == paramObjs(p, fd)[0] {
+				if sel, isS := call.Args[1].(*ast.SelectorExpr); isS && sel.Sel.Name == "BarcodeFormat_EAN_13" {
+					ok = true
+				}
+			}
+		}
+	}
+	// the contents reach the EAN-13 writer as given: the parameter is never reassigned on the way (a truncated 12th digit
+	// would never be verified)
+	ast.Inspect(fd.Body, func(n ast.Node) bool {
+		if as, isA := n.(*ast.AssignStmt); isA {
+			for _, l := range as.Lhs {
+				if identObj(p, l) == paramObjs(p, fd)[0] {
+					ok = false
+				}
+			}
+		}
+		return true
+	})
+	_ = typeutil.Callee
+	_ = math.MaxInt32
+	r.Check(ok, rule, key, c.pos(fd.Pos()), "UPC-A must be written as the EAN-13 symbol of \"0\" + the contents as given (so that 11 / 12 digits are accepted and a supplied check digit is verified there)")
+}
+
+// M-ROWSCAN: which rows of an image the 1-D readers look at
+func checkRowScan(c *Ctx, r *Report) {
+	r.Rule("M-ROWSCAN", "OneDReader.doDecode, folded from source for image heights 1..70 with and without TRY_HARDER (rows delivered, every row decode answered with a not-found error so that the scan runs to its end): the first row examined is the middle row height/2 and lies inside the image for every height >= 1 (a one-row image is examined), every examined row lies inside the image, no row twice, rows alternate around the middle in steps of max(1, height >> 5) (>> 8 when trying harder), up to 15 rows (all rows when trying harder), each row is tried upright and reversed with the caller's hints on both attempts, and the answer after an unsuccessful scan is a not-found error", 2)
+	fd, p := c.funcDeclOf("oned", "OneDReader.doDecode")
+	if fd == nil {
+		r.AnchorLost("M-ROWSCAN", "oned.OneDReader.doDecode", "method not found")
+		return
+	}
+	thKey := ""
+	if tv, ok := constValIn(c, "", "DecodeHintType_TRY_HARDER"); ok {
+		thKey = fmt.Sprint(tv)
+	}
+	for _, tryHarder := range []bool{false, true} {
+		key := fmt.Sprintf("oned.OneDReader.doDecode tryHarder=%v", tryHarder)
+		r.Analysed(key)
+		bad := ""
+		for h := int64(1); h <= 70 && bad == ""; h++ {
+			var rows []int64
+			attempts := map[int64]int{}
+			reversed := map[int64]int{}
+			cur := int64(-1)
+			hintBad := ""
+			hints := &Val{K: VNil}
+			if tryHarder {
+				if thKey == "" {
+					bad = "?DecodeHintType_TRY_HARDER is not a constant"
+					break
+				}
+				hints = &Val{K: VStruct, Fields: map[string]*Val{thKey: vbool(true)}}
+			}
+			hk := &rpf{unroll: 100000, maxSteps: 2000000}
+			hk.callHook = func(rr *rpf, call *ast.CallExpr, callee types.Object) (*Val, bool) {
+				fn, ok := callee.(*types.Func)
+				if !ok {
+					if b, isB := callee.(*types.Builtin); isB && (b.Name() == "max" || b.Name() == "min") && len(call.Args) == 2 {
+						a, bb := rr.expr(call.Args[0]), rr.expr(call.Args[1])
+						if a.K == VInt && bb.K == VInt {
+							if (a.I > bb.I) == (b.Name() == "max") {
+								return a, true
+							}
+							return bb, true
+						}
+					}
+					return nil, false
+				}
+				switch fn.Name() {
+				case "GetWidth":
+					return vint(100), true
+				case "GetHeight":
+					return vint(h), true
+				case "NewBitArray":
+					return &Val{K: VStruct, Ptr: true, Fields: map[string]*Val{}}, true
+				case "Reverse":
+					reversed[cur]++
+					return &Val{K: VNil}, true
+				case "max", "min":
+					a, b := rr.expr(call.Args[0]), rr.expr(call.Args[1])
+					if a.K == VInt && b.K == VInt {
+						if (a.I > b.I) == (fn.Name() == "max") {
+							return a, true
+						}
+						return b, true
+					}
+				case "NewNotFoundException":
+					return vstr("error:NotFound"), true
+				}
+				return errCtorHook(rr, call, callee)
+			}
+			hk.multiHook = func(call *ast.CallExpr, callee types.Object) ([]*Val, bool) {
+				fn, ok := callee.(*types.Func)
+				if !ok {
+					return nil, false
+				}
+				switch fn.Name() {
+				case "GetBlackRow":
+					y := rpfCurrent.expr(call.Args[0])
+					if y.K != VInt {
+						rpfFail("GetBlackRow with a non-constant row")
+					}
+					rows = append(rows, y.I)
+					cur = y.I
+					return []*Val{{K: VStruct, Ptr: true, Fields: map[string]*Val{}}, {K: VNil}}, true
+				case "DecodeRow":
+					y := rpfCurrent.expr(call.Args[0])
+					if y.K != VInt || y.I != cur {
+						rpfFail("DecodeRow is given a row number other than the row just fetched")
+					}
+					attempts[cur]++
+					if hv := rpfCurrent.expr(call.Args[2]); hv != hints && !(hv.K == VNil && hints.K == VNil) {
+						if hintBad == "" {
+							hintBad = fmt.Sprintf("row %d, attempt %d: DecodeRow is not given the caller's hints (only the result-point callback may be removed for the reversed attempt, and none was given)", cur, attempts[cur])
+						}
+					}
+					return []*Val{{K: VNil}, vstr("error:NotFound")}, true
+				}
+				return nil, false
+			}
+			hk.assertHook = func(rr *rpf, ta *ast.TypeAssertExpr, v *Val) (bool, bool) {
+				if v.K != VStr || !strings.HasPrefix(v.S, "error:") {
+					return false, false
+				}
+				tn := types.ExprString(ta.Type)
+				// a not-found error is a NotFoundException and a ReaderException
+				return strings.HasSuffix(tn, "NotFoundException") || strings.HasSuffix(tn, "ReaderException"), true
+			}
+			res, err := c.rpfCall(fd, p, []*Val{{K: VStruct, Ptr: true, Fields: map[string]*Val{}}, hints}, hk)
+			if err != nil {
+				bad = "?" + err.Error()
+				break
+			}
+			what := fmt.Sprintf("height %d", h)
+			if hintBad != "" {
+				bad = what + ", " + hintBad
+				break
+			}
+			if len(res) != 2 || res[0].K != VNil || res[1].K != VStr || res[1].S != "error:NotFound" {
+				bad = what + ": an unsuccessful scan does not end in a not-found error"
+				break
+			}
+			step := h >> 5
+			maxLines := int64(15)
+			if tryHarder {
+				step, maxLines = h>>8, h
+			}
+			if step < 1 {
+				step = 1
+			}
+			var want []int64
+			for x := int64(0); x < maxLines; x++ {
+				y := h / 2
+				if x%2 == 0 {
+					y += step * ((x + 1) / 2)
+				} else {
+					y -= step * ((x + 1) / 2)
+				}
+				if y < 0 || y >= h {
+					break
+				}
+				want = append(want, y)
+			}
+			if fmt.Sprint(rows) != fmt.Sprint(want) {
+				bad = fmt.Sprintf("%s: rows examined %v, the scan from the middle outwards is %v", what, rows, want)
+				break
+			}
+			for _, y := range rows {
+				if attempts[y] != 2 || reversed[y] != 1 {
+					bad = fmt.Sprintf("%s: row %d is decoded %d times and reversed %d times (once upright, once reversed)", what, y, attempts[y], reversed[y])
+					break
+				}
+			}
+		}
+		reportFold(r, c, "M-ROWSCAN", key, fd.Pos(), bad)
 	}
 }
